@@ -959,6 +959,102 @@ def _r5(model, rep):
                      e.line)
 
 
+def _foreign_sets_and_names(model, rep):
+    """Reader-side agreement of the sibling tag parsers in from_meshio, and
+    of the point-data encoder with the exporter.
+    (a) meshio lists the bookkeeping of the gmsh reader ('gmsh:bounding_
+    entities') among the cell sets; the boundary loop skips keys of the
+    'gmsh' namespace, the subdomain comprehension must do the same - else a
+    file written by Gmsh comes back with an invented subdomain of entity
+    tags.  (b) The legacy MSH 2.2 parser resolves the name of a physical
+    group: gmsh numbers groups per dimension, so the lookup has to compare
+    number *and* dimension, and a number without a name must not become the
+    dictionary key None (npz / json cannot store it).  (c) Point data handed
+    to meshio needs one value per exported point: the encoder must size its
+    indicator by the stored points (second-order meshes store more points
+    than vertices)."""
+    R1 = "C17-R1"
+    fm = model.func(IO, "from_meshio")
+    # (a)
+    loops = []
+    for n in ast.walk(fm.node):
+        gens = []
+        if isinstance(n, (ast.DictComp, ast.ListComp, ast.SetComp)):
+            gens = [(g.iter, g.ifs, n) for g in n.generators]
+        elif isinstance(n, ast.For):
+            tests = [x.test for x in ast.walk(n) if isinstance(x, ast.If)]
+            gens = [(n.iter, tests, n)]
+        for it, ifs, node in gens:
+            if "cell_sets_dict" in src(it):
+                loops.append((node, any("gmsh" in src(t) for t in ifs)))
+    if len(loops) < 2:
+        raise AnalysisError(f"from_meshio: {len(loops)} loops over the cell "
+                            f"sets found, 2 confirmed by hand")
+    for k, (node, filt) in enumerate(sorted(loops,
+                                            key=lambda x: x[0].lineno)):
+        kind = "subdomains" if isinstance(node, ast.DictComp) else \
+            "boundaries"
+        _v(rep, R1, filt, f"cell-sets:{kind}:foreign-namespace",
+           "keys of the 'gmsh' namespace are skipped", "from_meshio",
+           f"the {kind} are taken from every cell set, including the "
+           f"bookkeeping sets of meshio's gmsh reader ('gmsh:bounding_"
+           f"entities'): a file written by Gmsh is loaded with an invented "
+           f"named set whose entries are entity tags, not indices",
+           node.lineno, FIO)
+    # (b)
+    finders = [n for n in ast.walk(fm.node) if isinstance(n, ast.FunctionDef)
+               and n is not fm.node and any("field_data" in src(x) for x in ast.walk(n))]
+    if len(finders) != 1:
+        raise AnalysisError("from_meshio: name lookup of the legacy parser "
+                            "not found")
+    fd = finders[0]
+    cols = {src(x.slice) for x in ast.walk(fd) if isinstance(
+        x, ast.Subscript) and isinstance(x.value, ast.Subscript)
+        and "field_data" in src(x.value.value)}
+    _v(rep, R1, {"0", "1"} <= cols, "legacy-tag-parser:number-and-dimension",
+       "physical names are looked up by number and dimension",
+       "from_meshio",
+       f"'{fd.name}' compares column(s) {sorted(cols)} of the field_data "
+       f"entries only: gmsh numbers physical groups per dimension, so "
+       f"'Physical Curve 1' and 'Physical Surface 1' get the name listed "
+       f"first and the other name is lost", fd.lineno, FIO)
+    may_none = any(isinstance(r, ast.Return) and (
+        r.value is None or (isinstance(r.value, ast.Constant)
+                            and r.value.value is None))
+        for r in ast.walk(fd))
+    keyed = [n for n in ast.walk(fm.node) if isinstance(n, ast.Assign)
+             and isinstance(n.targets[0], ast.Subscript)
+             and isinstance(n.targets[0].slice, ast.Call)
+             and src(n.targets[0].slice.func) == fd.name]
+    _v(rep, R1, not (may_none and keyed), "legacy-tag-parser:unnamed-groups",
+       "a group number without a name never becomes a dictionary key",
+       "from_meshio",
+       f"'{src(keyed[0].targets[0])[:50]}' uses the result of '{fd.name}' "
+       f"as a key although it returns None for a number without a name: "
+       f"all unnamed groups collapse into one tag named None, which npz / "
+       f"json cannot store" if keyed else "", keyed[0].lineno if keyed
+       else fd.lineno, FIO)
+    # (c)
+    mcls = model.cls(MESH, "Mesh")
+    enc = mcls.methods.get("_encode_point_data")
+    if enc is None:
+        raise AnalysisError("Mesh._encode_point_data not found")
+    allocs = [c for c in ast.walk(enc.node) if isinstance(c, ast.Call)
+              and src(c.func) in ("np.zeros", "np.ones", "np.empty",
+                                  "np.full") and c.args]
+    if not allocs:
+        raise AnalysisError("Mesh._encode_point_data: allocation not found")
+    bad = [c for c in allocs if "nvertices" in src(c.args[0])]
+    _v(rep, R1, not bad, "encode-point-data:one-value-per-point",
+       "the indicator has one value per stored point",
+       "Mesh._encode_point_data",
+       f"'{src(bad[0])}' sizes the point data by the number of vertices; "
+       f"to_meshio exports every stored point (second-order meshes store "
+       f"mid-side nodes, any mesh may store unused points) and meshio "
+       f"rejects the mismatch: save(..., encode_point_data=True) raises"
+       if bad else "", bad[0].lineno if bad else enc.lineno)
+
+
 def run(model: Model, rep, tier: str) -> None:
     rep.rule("C17-R1", "writer/reader symmetry: keys, prefixes, type "
              "tables, bit weights, hexahedron permutation")
@@ -972,6 +1068,7 @@ def run(model: Model, rep, tier: str) -> None:
     _r2(rep, hexm)
     staged(lambda: _r3(model, rep), lambda: _r4(model, rep),
            lambda: _loaders_keep_numbering(model, rep),
+           lambda: _foreign_sets_and_names(model, rep),
            lambda: _r5(model, rep))
     rep.require_min("C17-R1", 9)
     rep.require_min("C17-R2", 5)
@@ -981,6 +1078,23 @@ def run(model: Model, rep, tier: str) -> None:
 _IO = FIO
 _G22 = "    if len(boundaries) == 0 and m.cell_data and m.field_data:"
 MUTANTS = [
+    ("point-data indicator sized by the number of vertices",
+     [(FM, "            ind = np.zeros(self.p.shape[1])",
+       "            ind = np.zeros(self.nvertices)")], "C17-R1"),
+    ("subdomains parsed from every cell set",
+     [(_IO, "                      if meshio_type in v and k.split(\":\")[0] "
+       "!= \"gmsh\"}", "                      if meshio_type in v}")],
+     "C17-R1"),
+    ("legacy names looked up by number only",
+     [(_IO, "                    if (m.field_data[key][0] == tag\n"
+       "                            and m.field_data[key][1] == dim):",
+       "                    if m.field_data[key][0] == tag:")], "C17-R1"),
+    ("legacy boundary groups keyed by the lookup result",
+     [(_IO, "                name = find_tagname(tag, mtmp.dim() - 1)\n"
+       "                if name is not None:\n"
+       "                    boundaries[name] = index[tagindex, 1]",
+       "                boundaries[find_tagname(tag, mtmp.dim() - 1)] = "
+       "index[tagindex, 1]")], "C17-R1"),
     ("cell-data keys split at every separator",
      [(FM, "            subnames = name.split(\":\", 2)",
        "            subnames = name.split(\":\")")], "C17-R1"),
@@ -1087,6 +1201,13 @@ MUTANTS = [
       "'subdomains': subdomains,"), "C17-R1"),
 ]
 TWINS = [
+    ("gmsh namespace tested with startswith",
+     [(_IO, "                      if meshio_type in v and k.split(\":\")[0] "
+       "!= \"gmsh\"}", "                      if meshio_type in v and not "
+       "k.startswith(\"gmsh:\")}")]),
+    ("point-data indicator sized by the point table",
+     [(FM, "            ind = np.zeros(self.p.shape[1])",
+       "            ind = np.zeros(self.doflocs.shape[1])")]),
     ("cell-data keys parsed with partition",
      [(FM, "            subnames = name.split(\":\", 2)",
        "            subnames = name.split(\":\", maxsplit=2)")]),
